@@ -9,7 +9,7 @@
 From Coq Require Import List String Ascii Bool Arith.
 From Polar Require Import HistoryNames.
 Import ListNotations.
-Open Scope string_scope.
+Local Open Scope string_scope.
 
 Definition ma_name (var : string) (i : nat) : string := "_" ++ var ++ dec i.
 Definition ma_name_fixed (var : string) (i : nat) : string := "_" ++ var ++ "_" ++ dec i.
